@@ -120,7 +120,16 @@ var registry = map[string]func([]Val) Val{}
 var bracketSpacer = strings.NewReplacer("[", " [ ", "]", " ] ")
 
 // every op runs under stableWrap (stable.go): values recorded with keep*() must still be what was handed out
-func register(name string, f func([]Val) Val) { registry[name] = stableWrap(f) }
+func register(name string, f func([]Val) Val) {
+	switch {
+	case strings.HasPrefix(name, "cost."):
+		registry[name] = stableWrapN(f, 1)
+	case strings.HasPrefix(name, "tot."):
+		registry[name] = stableWrapN(f, 2)
+	default:
+		registry[name] = stableWrap(f)
+	}
+}
 
 var lastPanic string
 
